@@ -41,6 +41,9 @@ class TypeState:
         self.writes = []  # (field, call stack) recorded during one operation
         self.stack = []
         self.return_nodes = []
+        self.validated = set()  # hidden fields whose attrs validator may reject a value (TypeError)
+        self.inject = None  # index of the validated store that is made to fail in this run
+        self.vcount = 0
 
     # ------------------------------------------------------------------ state
     def make(self, **kw):
@@ -127,6 +130,12 @@ class TypeState:
             if isinstance(t, ast.Attribute) and isinstance(t.value, ast.Name) and t.value.id == "self":
                 nm = t.attr
                 if nm in self.hidden or nm in self.plain:
+                    if nm in self.validated and val == SET:
+                        # attrs validates on assignment: a value of the wrong shape raises TypeError here
+                        if self.inject is not None and self.vcount == self.inject:
+                            self.vcount += 1
+                            raise Raised("TypeError", s)
+                        self.vcount += 1
                     self.writes.append((nm, tuple(self.stack), s))
                     self.cur = self.put(self.cur, nm, val)
                     return
